@@ -45,6 +45,12 @@ _ORDER_BUCKETS = [(1, 1), (2, 5), (2, 5), (6, 15), (6, 15), (16, 30), (16, 30), 
 def burg_case(draw, dtype="any", extra=None):
     n = draw(st.one_of(st.integers(4, 8), st.integers(9, 40), st.integers(41, 200), st.integers(41, 200)))
     x = draw(gen.signal(dtype=dtype, kinds=KINDS, n=n))
+    if x["kind"] == "int" and draw(st.booleans()):
+        # small-valued integer data (+-1 chips, sparse counts): reflection coefficients that are *exactly* zero
+        # at an inner stage occur here (24 % of records with values in {-1,0,1} at N=6) and nowhere else
+        x["range"] = draw(st.sampled_from([[-1, 1], [-3, 3], [-1, 1], [0, 1], [-2, 2]]))
+        x["n"] = n = draw(st.integers(4, 12))
+        x.pop("gain", None)
     if x["kind"] == "tones" and x.get("noise", 0.0) < 0.01:
         # "tones in noise": keep the prediction error non-degenerate by construction
         x["noise"] = draw(st.sampled_from([0.01, 0.1, 1.0]))
@@ -313,8 +319,8 @@ def c13_pburg(ctx, case):
     arg = x.tolist() if case["as_list"] else x
     # the class is constructed the way users do: with or without a sampling frequency, NFFT and scaling; none of them
     # may change the model it exposes (a pure function of the case: picked from the order and length)
-    variant = (p + 3 * N) % 4
-    kw = [{}, {"sampling": 1000.0}, {"sampling": 0.25, "NFFT": 2 * N + 1}, {"sampling": 44100.0, "scale_by_freq": True}][variant]
+    kw = [{}, {"sampling": 1000.0}, {"sampling": 0.25, "NFFT": 2 * N + 1}, {"sampling": 44100.0, "scale_by_freq": True},
+          {"NFFT": max(p + 1, N // 2)}, {"NFFT": "nextpow2"}][(p + 3 * N) % 6]
     ctx.cls("pburg kwargs: %s" % ",".join(sorted(kw)) if kw else "pburg kwargs: none")
     obj = spectrum.pburg(arg, p, criteria=c, **kw) if c else spectrum.pburg(arg, p, **kw)
     obj()
